@@ -4,6 +4,7 @@ import (
 	"encoding/json"
 	"flag"
 	"fmt"
+	"golang.org/x/tools/go/ssa"
 	"os"
 	"path/filepath"
 	"runtime/debug"
@@ -77,7 +78,7 @@ func main() {
 	if s := os.Getenv("VERIF_SEED"); s != "" {
 		seed, _ = strconv.ParseInt(s, 10, 64)
 	}
-	ids := []string{*prop}
+	ids := strings.Split(*prop, ",")
 	if *prop == "all" {
 		ids = nil
 		for id := range registry {
@@ -119,6 +120,12 @@ func main() {
 				ctxCache[need] = c
 			}
 			c.Tier = *tier
+			// every property starts from the same state, whether it runs alone or after others: nothing
+			// that an earlier property evaluated (concrete bounds verdicts, memoised explorations,
+			// prover summaries) may discharge an obligation of this one
+			boundsSeen = map[ssa.Instruction]*boundStat{}
+			c.provers, c.retCases, c.retQs, c.retOK = nil, nil, nil, nil
+			c.routerMemo = nil
 			for _, n := range aliasNotes {
 				rep.Notes = append(rep.Notes, "renamed identifier resolved: "+n)
 			}
